@@ -126,7 +126,7 @@ func genTransport(g *rand.Rand, tier string) any {
 	case 1:
 		p.Mode = g.IntN(3)
 	case 2:
-		p.Mode = g.IntN(4)
+		p.Mode = g.IntN(5)
 	}
 	if p.Mode == 2 {
 		m := 1 + g.IntN(5)
@@ -504,7 +504,7 @@ func execHTTPTransport(e *Env, p *TransportParams) {
 			return false
 		}
 	}
-	switch p.Mode % 4 {
+	switch p.Mode % 5 {
 	case 0:
 		roundTrip(e, "http", aToB, lazyB, envsOf(p, true))
 	case 1:
@@ -598,6 +598,69 @@ func execHTTPTransport(e *Env, p *TransportParams) {
 				e.Violate(prop, "malformed-delivered", "http.ServeHTTP", "%d envelopes were delivered to the reader, %d well-formed requests were made", delivered, wantDelivered)
 				return
 			}
+		}
+	case 4:
+		// failing writes (peer unreachable), alone, repeated, and combined with
+		// an idle timeout of the same connection: errors, never a crash
+		dead := A.NewConnection("addr-nowhere")
+		ctx, cancel := context.WithCancel(context.Background())
+		e.OnTeardown(cancel)
+		var werrs []error
+		var rerr error
+		rdone := false
+		withReader := p.TickAt%2 == 0
+		if withReader {
+			e.Go("http.dead.reader", func() {
+				e.Pt("t.read")
+				_, rerr = dead.Read(ctx)
+				rdone = true
+			})
+		}
+		write := func(tag string) {
+			e.Go("http.dead.writer."+tag, func() {
+				e.Pt("t.write")
+				err := dead.Write(ctx, genEnvelope(7, true, false))
+				histMu.Lock()
+				werrs = append(werrs, err)
+				histMu.Unlock()
+				e.Log("t.write.failed", "http", 0, errStr(err))
+			})
+		}
+		order := p.TickAt % 3
+		if order == 0 {
+			write("a")
+		}
+		e.NoAutoAdvance = true
+		if rr := e.Drive(nil); rr == Crashed || rr == StepLimit {
+			return
+		}
+		e.NoAutoAdvance = false
+		if order != 0 {
+			// let the connection time out first
+			for i := 0; i < 6; i++ {
+				e.Advance(90 * time.Second)
+				if rr := e.Drive(nil); rr == Crashed || rr == StepLimit {
+					return
+				}
+			}
+			e.Note("fault.clock.jump")
+		}
+		write("b")
+		write("c")
+		if rr := e.Settle(); rr == Crashed || rr == StepLimit {
+			return
+		}
+		e.Note("nontrivial")
+		e.Note("http.failed-writes")
+		for _, err := range werrs {
+			if err == nil {
+				e.Violate(prop, "write-to-nowhere-ok", "http.Write", "a Write to an unreachable peer reported success")
+			}
+		}
+		_ = rerr
+		if withReader && !rdone {
+			// a failed write (or the idle timeout) unregisters the connection: its reader must fail
+			e.Violate(prop, "reader-not-failed", "http.Write", "the reader of a connection whose writes failed is still blocked\n%s", e.WaitGraph())
 		}
 	default:
 		// idle timeout: the cleaner's tick lands somewhere inside a delivery
